@@ -338,7 +338,10 @@ class Engine:
         """symbolic real input; concrete value from the current assignment"""
         if name not in self.declared:
             self.declared.append(name)
-        v = self.assignment.get(name, Fraction(default) if not isinstance(default, float) else algebraic(Fraction(default)))
+        v = self.assignment.get(name)
+        if v is None:
+            v = Fraction(default) if not isinstance(default, float) else algebraic(Fraction(default))
+            self.assignment[name] = v
         return CR(v, dag.var(name))
 
     def input_int(self, name, default=0, lo=None, hi=None):
@@ -350,6 +353,14 @@ class Engine:
         if hi is not None:
             self.assume(c <= hi)
         return c
+
+    def concretize_int(self, c, lo, hi):
+        """case-split a bounded integer input through the solver: afterwards it is a constant on this path"""
+        for v in range(lo, hi):
+            if bool(c == v):
+                return CR(Fraction(v), lift(v))
+        self.assume(c == hi)
+        return CR(Fraction(hi), lift(hi))
 
     def fresh(self, prefix, default=0):
         """output of a nondeterministic stub (environment): a new input, named by creation order on this path"""
@@ -387,6 +398,23 @@ class Engine:
             self.fail('sqrt-domain', 'concrete', f'sqrt of negative value {float(x.v)}')
 
     def round(self, x, ndigits):
+        # round is a function: the same argument term gives the same witness; rounding an already rounded value is the identity
+        key = (x.n, ndigits)
+        hit = self.round_memo.get(key)
+        if hit is not None:
+            return hit
+        if x.n.op == 'div' and x.n.args[0].op == 'var' and x.n.args[0].args[0] in self.int_vars \
+                and x.n.args[1] is lift(Fraction(10) ** ndigits):
+            return x
+        if x.n.op == 'const' and not isinstance(x.v, float):
+            scale = Fraction(10) ** ndigits
+            v = Fraction(builtins.round(x.v * scale)) / scale       # exact, ties to even
+            return CR(v, lift(v))
+        r = self._round_new(x, ndigits)
+        self.round_memo[key] = r
+        return r
+
+    def _round_new(self, x, ndigits):
         k = self.fresh_count.get('rnd', 0)
         self.fresh_count['rnd'] = k + 1
         name = f"rnd!{k}"
@@ -504,12 +532,13 @@ class Engine:
             tries = 0
             while True:
                 ENGINE = self
-                self.assignment = assignment
+                self.assignment = dict(assignment)
                 self.expect = expect
                 self.path = []
                 self.declared = []
                 self.fresh_count = {}
                 self.rounds = []
+                self.round_memo = {}
                 self.powers = []
                 self.diverged = False
                 self.no_branch_depth = 0
